@@ -40,6 +40,7 @@ DEMO[C35]="c35_demo_test.go:builtins/core/escape"; RUN[C35]="TestC35EscapeRoundT
 DEMO[C36]="c36_seed_demo_test.go:lang/expressions"; RUN[C36]="TestC36SeedDemo"
 DEMO[C39]="break_c39_demo_test.go:builtins/core/structs"; RUN[C39]="TestC39"
 DEMO[C19]="c19_demo_test.go:builtins/core/index"; RUN[C19]="TestC19"
+DEMO[C03]="c03_demo_test.go:lang"; RUN[C03]="TestC03"
 for id in "$@"; do
   f=${DEMO[$id]%%:*}; d=${DEMO[$id]##*:}
   cd $W; git checkout -q -- .; git clean -fdq
